@@ -10,8 +10,7 @@ let observe succ n st =
   let ids l = join "," (List.map string_of_int (List.sort_uniq compare (List.map int_of_nat l))) in
   let tags = List.sort compare (List.filter_map (fun (r, m) -> match r with RTag t -> Some (int_of_nat t, int_of_nat m) | _ -> None) st.idx) in
   let digs = List.sort_uniq compare (List.filter_map (fun (r, m) -> match r with RDig _ -> Some (int_of_nat m) | _ -> None) st.idx) in
-  let _ = digs in
-  let i = join "," (List.map (fun (t, m) -> Printf.sprintf "t%d>%d" t m) tags) in
+  let i = join "," (List.map (fun (t, m) -> Printf.sprintf "t%d>%d" t m) tags @ List.map (fun m -> Printf.sprintf "d%d" m) digs) in
   let p = ref [] in
   for k = n - 1 downto 0 do
     let ps = preds succ st.gnodes (nat_of_int k) in
